@@ -209,6 +209,17 @@ struct cds_lfq_node_rcu *_cds_lfq_dequeue_rcu(struct cds_lfq_queue_rcu *q)
 			enqueue_dummy(q);
 			next = rcu_dereference(head->next);
 		}
+		/*
+		 * Never remove a node the tail still points to (an
+		 * enqueuer may have linked "next" without having moved
+		 * the tail yet): help moving the tail first. Otherwise
+		 * the removed node stays reachable through q->tail by
+		 * readers starting after its grace period began, which
+		 * would access it after it has been reclaimed.
+		 */
+		if (rcu_dereference(q->tail) == head)
+			(void) uatomic_cmpxchg_mo(&q->tail, head, next,
+						CMM_SEQ_CST, CMM_SEQ_CST);
 		if (uatomic_cmpxchg_mo(&q->head, head, next,
 					CMM_SEQ_CST, CMM_SEQ_CST) != head)
 			continue;	/* Concurrently pushed. */
